@@ -23,6 +23,9 @@ JOBS = int(os.environ.get("VERIF_JOBS", "16"))
 TRUSTED_BASE_COMMON = [
     "Coq 8.16.1 kernel incl. the vm_compute machine (no native_compute, no -type-in-type, no guard/positivity/universe switches)",
     "no Axiom/Parameter/Admitted in /verif/coq (grep-checked on every run); Print Assumptions output recorded per theorem",
+    "coqchk -o (thorough tier) lists the axioms of every LOADED library: files using Psatz/Lra load Coq.Reals and with it "
+    "Coq.Logic.FunctionalExtensionality.functional_extensionality_dep, Coq.Reals.ClassicalDedekindReals.sig_not_dec and sig_forall_dec; "
+    "no property theorem depends on them (Print Assumptions: closed under the global context); any axiom outside Coq.* fails the check",
     "hand-written models in coq/theories/Model tied to /repo by the in-Coq correspondence of this run (harness/props + harness/lib/core.py)",
     "exact float->Q encoding (fractions.Fraction) of implementation inputs/outputs; CPython, numpy, shapely, pyquaternion as executed",
 ]
@@ -468,8 +471,14 @@ def run_check(prop, tier, seed):
             summ = outc[outc.find("CONTEXT SUMMARY"):] if "CONTEXT SUMMARY" in outc else outc[-1500:]
             cov["coqchk"].append({"cmd": f"coqchk -o -silent -Q theories PE {mod}", "exit": rcc, "summary": summ.strip()[:3000]})
             m_ax = re.search(r"\* Axioms:\s*(.*?)\n\s*\n", summ, flags=re.S)
-            if rcc != 0 or not m_ax or m_ax.group(1).strip() != "<none>":
-                broken.append({"kind": "axiom", "theorem": mod, "axiom": "coqchk: " + (m_ax.group(1).strip() if m_ax else summ[-500:])})
+            listed = [] if (m_ax and m_ax.group(1).strip() == "<none>") else ([a.strip() for a in m_ax.group(1).split("\n") if a.strip()] if m_ax else None)
+            # coqchk lists the axioms of EVERY library the file loads (Psatz/Lra load Coq.Reals and with it functional extensionality and the
+            # classical real-number axioms) whether or not a theorem uses them; what the property theorems depend on is what Print Assumptions
+            # reports (checked above: closed).  Standard-library axioms are recorded (trusted base), anything else is a broken obligation.
+            cov["coqchk"][-1]["axioms_of_loaded_libraries"] = listed
+            foreign = None if listed is None else [a for a in listed if not a.startswith("Coq.")]
+            if rcc != 0 or listed is None or foreign:
+                broken.append({"kind": "axiom", "theorem": mod, "axiom": "coqchk: " + ("; ".join(foreign) if foreign else summ[-500:])})
     cov["theorems"] = thms
     cov["nonvacuity_examples"] = examples
     cov["print_assumptions"] = {n: t for n, t in (pa or [])}
